@@ -264,7 +264,9 @@ struct Ledger : Monitor {
 			}
 		}
 		pend[d.src.str()].push_back(q);
+		last_q = q; last_src = d.src.str(); have_last = true;
 	}
+	Q last_q; std::string last_src; bool have_last = false;   // the query the server is working on (answers to NS/A/handshake queries are synchronous)
 	void on_send(const Dgram &d, Sock *s) override
 	{
 		if (!s || !s->owner) return;
@@ -317,6 +319,7 @@ struct Ledger : Monitor {
 			for (auto &p : pend) for (auto &q : p.second) if (q.id == id && (!best || q.t >= best->t)) best = &q;
 			return best && best->strict && best->plain_labels;
 		}
+		if (have_last && last_src == d.dst.str() && last_q.id == id) return last_q.strict && last_q.plain_labels;
 		auto it = pend.find(d.dst.str());
 		if (it == pend.end()) return true;     // unsolicited: let consume() report it
 		bool any = false, plainq = false;
